@@ -163,6 +163,21 @@ func (f *fsPair) do(s fsStep) (error, string, error, string) {
 		if oe == nil {
 			b.Close()
 		}
+	case "OpenFile": // OpenFile with the flag combinations Create does not cover; K names the combination
+		fl := map[string]int{"r": os.O_RDONLY, "wt": os.O_WRONLY | os.O_TRUNC, "rwt": os.O_RDWR | os.O_TRUNC, "wcx": os.O_WRONLY | os.O_CREATE | os.O_EXCL,
+			"wa": os.O_WRONLY | os.O_APPEND, "wc": os.O_WRONLY | os.O_CREATE, "rwc": os.O_RDWR | os.O_CREATE, "wct": os.O_WRONLY | os.O_CREATE | os.O_TRUNC}[s.K]
+		var a *File
+		a, se = cl.OpenFile(sp, fl)
+		if se == nil {
+			// no data is written through the handle: where File.Write puts bytes is not a name-space or metadata matter
+			// (the server documents SSH_FXF_APPEND as a no-op: the client sends offsets)
+			a.Close()
+		}
+		var b *os.File
+		b, oe = os.OpenFile(op, fl, 0o666)
+		if oe == nil {
+			b.Close()
+		}
 	case "Write": // make a file non-empty, so that truncation and sizes mean something
 		var a *File
 		a, se = cl.OpenFile(sp, os.O_WRONLY)
@@ -319,7 +334,7 @@ func genFsSteps(r *rand.Rand, n int) []fsStep {
 		}
 		return []string{nm[r.Intn(3)]}
 	}
-	ops := []string{"Mkdir", "Mkdir", "Create", "Create", "Write", "Symlink", "Remove", "RemoveDirectory", "Rename", "PosixRename", "Link", "Stat", "Lstat", "ReadLink",
+	ops := []string{"Mkdir", "Mkdir", "Create", "Create", "Write", "Write", "OpenFile", "OpenFile", "OpenFile", "Symlink", "Remove", "RemoveDirectory", "Rename", "PosixRename", "Link", "Stat", "Lstat", "ReadLink",
 		"Truncate", "Chmod", "Chtimes", "ReadDir", "MkdirAll", "RemoveAll", "Glob", "Walk", "RealPath", "StatVFS"}
 	var out []fsStep
 	for i := 0; i < n; i++ {
@@ -329,6 +344,8 @@ func genFsSteps(r *rand.Rand, n int) []fsStep {
 			s.Q = rp()
 		case "Symlink":
 			s.K, s.Q, s.P = []string{"la", "lb", "lc"}[r.Intn(3)], rp(), nil
+		case "OpenFile":
+			s.K = []string{"r", "wt", "rwt", "wcx", "wa", "wc", "rwc", "wct"}[r.Intn(8)]
 		case "Glob", "Walk":
 			if r.Intn(2) == 0 {
 				s.P = nil
@@ -359,6 +376,13 @@ func TestVerif_FsDiff(t *testing.T) {
 		steps = append(steps, fsStep{Op: "Glob", K: k}, fsStep{Op: "Glob", P: []string{"a"}}, fsStep{Op: "Glob", P: []string{"b"}, K: k}, mk("Walk"), mk("Walk", "a"), mk("ReadDir", "a"),
 			mk("RemoveAll", "a", "c"), mk("RemoveAll", "b"), fsStep{Op: "Glob", K: k}, mk("RemoveAll", "a"), mk("Walk"))
 		runFsScenario(t, tr, steps, i%2 == 1, "fixed", i)
+	}
+	// every open-flag combination on a non-empty file, a missing name, a directory, a link to the file and a dangling link
+	for i, k := range []string{"r", "wt", "rwt", "wcx", "wa", "wc", "rwc", "wct"} {
+		of := func(p ...string) fsStep { return fsStep{Op: "OpenFile", K: k, P: p} }
+		steps := []fsStep{mk("Create", "a"), mk("Write", "a"), mk("Mkdir", "b"), {Op: "Symlink", K: "la", Q: []string{"b", "a"}}, {Op: "Symlink", K: "lc", Q: []string{"b", "b"}},
+			{Op: "Symlink", K: "la", Q: []string{"c"}}, of("a"), mk("Stat", "a"), mk("Write", "a"), of("c"), mk("Stat", "a"), of("b"), of("b", "c"), of("b", "b"), mk("Lstat", "b", "c"), mk("ReadDir", "b"), of("a", "a")}
+		runFsScenario(t, tr, steps, i%2 == 1, "fixed-open", i)
 	}
 	r := vRand(51)
 	n := 120
